@@ -306,8 +306,79 @@ pub struct ColSpec {
     pub dbp_miniblocks: usize,
 }
 
+/// Metadata fields the writer can be told to lie about (C19). A lie replaces
+/// the true value of every occurrence of the field.
+#[derive(Clone, Copy, Debug, PartialEq)]
+pub enum LieField {
+    FileNumRows,
+    RgNumRows,
+    RgTotalByteSize,
+    ColNumValues,
+    ColTotalCompressed,
+    ColTotalUncompressed,
+    ColDataPageOffset,
+    ColDictPageOffset,
+    ColCodec,
+    ColPhysType,
+    SchemaPhysType,
+    SchemaNumChildren,
+    SchemaTypeLength,
+    SchemaPrecision,
+    SchemaScale,
+    PageUncompressedSize,
+    PageCompressedSize,
+    PageNumValues,
+    PageEncoding,
+    PageDefLevelsLen,
+    PageRepLevelsLen,
+    PageNumNulls,
+    DictNumValues,
+    DictBitWidth,
+    V1LevelLenPrefix,
+    DbpBlockSize,
+    DbpMiniblocks,
+    DbpTotalValues,
+    FooterLen,
+    PageType,
+}
+
+pub const ALL_LIES: &[LieField] = &[
+    LieField::FileNumRows,
+    LieField::RgNumRows,
+    LieField::RgTotalByteSize,
+    LieField::ColNumValues,
+    LieField::ColTotalCompressed,
+    LieField::ColTotalUncompressed,
+    LieField::ColDataPageOffset,
+    LieField::ColDictPageOffset,
+    LieField::ColCodec,
+    LieField::ColPhysType,
+    LieField::SchemaPhysType,
+    LieField::SchemaNumChildren,
+    LieField::SchemaTypeLength,
+    LieField::SchemaPrecision,
+    LieField::SchemaScale,
+    LieField::PageUncompressedSize,
+    LieField::PageCompressedSize,
+    LieField::PageNumValues,
+    LieField::PageEncoding,
+    LieField::PageDefLevelsLen,
+    LieField::PageRepLevelsLen,
+    LieField::PageNumNulls,
+    LieField::DictNumValues,
+    LieField::DictBitWidth,
+    LieField::V1LevelLenPrefix,
+    LieField::DbpBlockSize,
+    LieField::DbpMiniblocks,
+    LieField::DbpTotalValues,
+    LieField::FooterLen,
+    LieField::PageType,
+];
+
 #[derive(Clone, Debug)]
 pub struct FileSpec {
+    /// (field, value): lies about metadata, empty for valid files
+    pub lies: Vec<(LieField, i64)>,
     pub cols: Vec<ColSpec>,
     /// per column, all cells of the file
     pub data: Vec<Vec<Cell>>,
@@ -326,6 +397,11 @@ pub struct FileSpec {
 }
 
 impl FileSpec {
+    /// The value to write for `field`: the lie if one is set, else the truth.
+    pub fn lie(&self, field: LieField, truth: i64) -> i64 {
+        self.lies.iter().find(|l| l.0 == field).map(|l| l.1).unwrap_or(truth)
+    }
+
     pub fn num_rows(&self) -> usize {
         self.row_groups.iter().sum()
     }
@@ -337,6 +413,15 @@ impl FileSpec {
     pub fn expected_types(&self) -> Vec<String> {
         self.cols.iter().map(|c| c.ty.engine_type()).collect()
     }
+}
+
+thread_local! {
+    static LIES: std::cell::RefCell<Vec<(LieField, i64)>> = const { std::cell::RefCell::new(Vec::new()) };
+}
+
+/// The value to write for `field` in the file being written on this thread.
+fn lie(field: LieField, truth: i64) -> i64 {
+    LIES.with(|l| l.borrow().iter().find(|x| x.0 == field).map(|x| x.1).unwrap_or(truth))
 }
 
 // ---------------------------------------------------------------------------
@@ -442,9 +527,9 @@ pub fn rle_hybrid(values: &[u32], width: u8, min_run: usize) -> Vec<u8> {
 /// DELTA_BINARY_PACKED over i64 arithmetic truncated to `bits` (32 or 64).
 pub fn delta_binary_packed(vals: &[i64], bits: u8, block: usize, minis: usize) -> Vec<u8> {
     let mut out = Vec::new();
-    uleb(&mut out, block as u64);
-    uleb(&mut out, minis as u64);
-    uleb(&mut out, vals.len() as u64);
+    uleb(&mut out, lie(LieField::DbpBlockSize, block as i64) as u64);
+    uleb(&mut out, lie(LieField::DbpMiniblocks, minis as i64) as u64);
+    uleb(&mut out, lie(LieField::DbpTotalValues, vals.len() as i64) as u64);
     let first = vals.first().copied().unwrap_or(0);
     uleb(&mut out, zz(first));
     if vals.len() <= 1 {
@@ -808,9 +893,9 @@ fn enc_id(e: Enc) -> i32 {
 fn write_schema_element(w: &mut TW, col: &ColSpec) {
     use ColType::*;
     w.elem_begin();
-    w.i32(1, col.ty.phys() as i32);
+    w.i32(1, lie(LieField::SchemaPhysType, col.ty.phys() as i64) as i32);
     if col.ty == F16 {
-        w.i32(2, 2);
+        w.i32(2, lie(LieField::SchemaTypeLength, 2) as i32);
     }
     w.i32(3, if col.optional { 1 } else { 0 });
     w.binary(4, col.name.as_bytes());
@@ -840,8 +925,8 @@ fn write_schema_element(w: &mut TW, col: &ColSpec) {
         }
     }
     if let Dec32 { p, s } | Dec64 { p, s } = col.ty {
-        w.i32(7, s as i32);
-        w.i32(8, p as i32);
+        w.i32(7, lie(LieField::SchemaScale, s as i64) as i32);
+        w.i32(8, lie(LieField::SchemaPrecision, p as i64) as i32);
     }
     let need_logical = !bare && (style == 0 || style == 2) && !matches!(col.ty, Bool | F32 | F64 | TsInt96 | Binary);
     if need_logical {
@@ -929,9 +1014,9 @@ fn dict_of(cells: &[&Cell]) -> (Vec<Cell>, Vec<u32>) {
 fn page_header(kind: i32, uncompressed: usize, compressed: usize, f: impl FnOnce(&mut TW)) -> Vec<u8> {
     let mut w = TW::new();
     w.elem_begin();
-    w.i32(1, kind);
-    w.i32(2, uncompressed as i32);
-    w.i32(3, compressed as i32);
+    w.i32(1, lie(LieField::PageType, kind as i64) as i32);
+    w.i32(2, lie(LieField::PageUncompressedSize, uncompressed as i64) as i32);
+    w.i32(3, lie(LieField::PageCompressedSize, compressed as i64) as i32);
     f(&mut w);
     w.struct_end();
     w.buf
@@ -957,7 +1042,7 @@ fn build_chunk(spec: &FileSpec, col: &ColSpec, cells: &[Cell], salt: u64) -> (Ve
         let legacy = matches!(col.enc, Enc::Dict { legacy: true, .. });
         let header = page_header(2, body.len(), comp.len(), |w| {
             w.struct_begin(7);
-            w.i32(1, n as i32);
+            w.i32(1, lie(LieField::DictNumValues, n as i64) as i32);
             w.i32(2, if legacy { 2 } else { 0 });
             w.struct_end();
         });
@@ -983,7 +1068,7 @@ fn build_chunk(spec: &FileSpec, col: &ColSpec, cells: &[Cell], salt: u64) -> (Ve
             Enc::Dict { .. } => {
                 let idx = &dict_idx[consumed_non_null..consumed_non_null + vals.len()];
                 let width = bits_needed(dict_len.saturating_sub(1) as u64);
-                let mut b = vec![width];
+                let mut b = vec![lie(LieField::DictBitWidth, width as i64) as u8];
                 b.extend(rle_hybrid(idx, width, col.min_rle_run));
                 b
             }
@@ -1014,12 +1099,12 @@ fn build_chunk(spec: &FileSpec, col: &ColSpec, cells: &[Cell], salt: u64) -> (Ve
             let (nv, nn, nr, ll) = (slice.len() as i32, nulls as i32, slice.len() as i32, levels.len() as i32);
             let header = page_header(3, unc, comp, |w| {
                 w.struct_begin(8);
-                w.i32(1, nv);
-                w.i32(2, nn);
+                w.i32(1, lie(LieField::PageNumValues, nv as i64) as i32);
+                w.i32(2, lie(LieField::PageNumNulls, nn as i64) as i32);
                 w.i32(3, nr);
-                w.i32(4, eid);
-                w.i32(5, ll);
-                w.i32(6, 0);
+                w.i32(4, lie(LieField::PageEncoding, eid as i64) as i32);
+                w.i32(5, lie(LieField::PageDefLevelsLen, ll as i64) as i32);
+                w.i32(6, lie(LieField::PageRepLevelsLen, 0) as i32);
                 if flag_uncompressed {
                     w.bool(7, false);
                 } else if salt % 2 == 0 {
@@ -1033,7 +1118,7 @@ fn build_chunk(spec: &FileSpec, col: &ColSpec, cells: &[Cell], salt: u64) -> (Ve
         } else {
             let mut raw = Vec::new();
             if col.optional {
-                raw.extend_from_slice(&(levels.len() as u32).to_le_bytes());
+                raw.extend_from_slice(&(lie(LieField::V1LevelLenPrefix, levels.len() as i64) as u32).to_le_bytes());
                 raw.extend_from_slice(&levels);
             }
             raw.extend_from_slice(&values_bytes);
@@ -1041,8 +1126,8 @@ fn build_chunk(spec: &FileSpec, col: &ColSpec, cells: &[Cell], salt: u64) -> (Ve
             let nv = slice.len() as i32;
             let header = page_header(0, raw.len(), comp.len(), |w| {
                 w.struct_begin(5);
-                w.i32(1, nv);
-                w.i32(2, eid);
+                w.i32(1, lie(LieField::PageNumValues, nv as i64) as i32);
+                w.i32(2, lie(LieField::PageEncoding, eid as i64) as i32);
                 w.i32(3, 3);
                 w.i32(4, 3);
                 w.struct_end();
@@ -1059,6 +1144,13 @@ fn build_chunk(spec: &FileSpec, col: &ColSpec, cells: &[Cell], salt: u64) -> (Ve
 }
 
 pub fn write_file(spec: &FileSpec) -> (Vec<u8>, Footer) {
+    LIES.with(|l| *l.borrow_mut() = spec.lies.clone());
+    let r = write_file_inner(spec);
+    LIES.with(|l| l.borrow_mut().clear());
+    r
+}
+
+fn write_file_inner(spec: &FileSpec) -> (Vec<u8>, Footer) {
     let mut out: Vec<u8> = b"PAR1".to_vec();
     let mut footer = Footer { num_rows: spec.num_rows() as i64, version: spec.version, created_by: spec.created_by.clone(), ..Default::default() };
     // row group -> per column metadata bytes are written into the footer
@@ -1113,13 +1205,13 @@ pub fn write_file(spec: &FileSpec) -> (Vec<u8>, Footer) {
         // root
         w.elem_begin();
         w.binary(4, b"schema");
-        w.i32(5, spec.cols.len() as i32);
+        w.i32(5, lie(LieField::SchemaNumChildren, spec.cols.len() as i64) as i32);
         w.struct_end();
         for c in &spec.cols {
             write_schema_element(&mut w, c);
         }
     }
-    w.i64(3, spec.num_rows() as i64);
+    w.i64(3, lie(LieField::FileNumRows, spec.num_rows() as i64));
     w.list_begin(4, T_STRUCT, rgs.len());
     for (gi, (metas, total_unc, n)) in rgs.iter().enumerate() {
         w.elem_begin();
@@ -1131,28 +1223,28 @@ pub fn write_file(spec: &FileSpec) -> (Vec<u8>, Footer) {
             let file_offset = m.dict_page_offset.unwrap_or(m.data_page_offset);
             w.i64(2, file_offset);
             w.struct_begin(3);
-            w.i32(1, col.ty.phys() as i32);
+            w.i32(1, lie(LieField::ColPhysType, col.ty.phys() as i64) as i32);
             w.list_begin(2, T_I32, m.encodings.len());
             for e in &m.encodings {
                 w.list_i32(*e);
             }
             w.list_begin(3, T_BINARY, 1);
             w.list_binary(col.name.as_bytes());
-            w.i32(4, spec.codec as i32);
-            w.i64(5, m.num_values);
-            w.i64(6, m.unc);
-            w.i64(7, m.comp);
-            w.i64(9, m.data_page_offset);
+            w.i32(4, lie(LieField::ColCodec, spec.codec as i64) as i32);
+            w.i64(5, lie(LieField::ColNumValues, m.num_values));
+            w.i64(6, lie(LieField::ColTotalUncompressed, m.unc));
+            w.i64(7, lie(LieField::ColTotalCompressed, m.comp));
+            w.i64(9, lie(LieField::ColDataPageOffset, m.data_page_offset));
             if let Some(d) = m.dict_page_offset {
-                w.i64(11, d);
+                w.i64(11, lie(LieField::ColDictPageOffset, d));
             }
             write_statistics(&mut w, 12, col, &spec.data[m.col][m.cells.0..m.cells.1], (gi * 7 + m.col) as u64);
             w.struct_end();
             w.struct_end();
             cols_facts.push((phys_name(col.ty.phys()).to_string(), col.optional as i16, file_offset, m.num_values, m.comp, m.unc, m.data_page_offset));
         }
-        w.i64(2, *total_unc);
-        w.i64(3, *n);
+        w.i64(2, lie(LieField::RgTotalByteSize, *total_unc));
+        w.i64(3, lie(LieField::RgNumRows, *n));
         w.i16_field(7, gi as i16);
         w.struct_end();
         footer.row_groups.push((*n, *total_unc, gi as i16));
@@ -1165,7 +1257,7 @@ pub fn write_file(spec: &FileSpec) -> (Vec<u8>, Footer) {
     footer.footer_start = out.len();
     footer.footer_len = w.buf.len();
     out.extend_from_slice(&w.buf);
-    out.extend_from_slice(&(w.buf.len() as u32).to_le_bytes());
+    out.extend_from_slice(&(lie(LieField::FooterLen, w.buf.len() as i64) as u32).to_le_bytes());
     out.extend_from_slice(b"PAR1");
     (out, footer)
 }
@@ -1409,6 +1501,7 @@ pub fn gen_file(rng: &mut Rng, max_rows: usize, types: &[ColType]) -> FileSpec {
         row_groups.push(0);
     }
     FileSpec {
+        lies: Vec::new(),
         cols,
         data,
         row_groups,
